@@ -34,7 +34,8 @@ class Item:
     """One function to translate."""
 
     def __init__(self, path, qual, coqname, params, selfs=None, out_selfs=None, calls=None,
-                 consts=None, identity=(), const_true=(), partial=False,
+                 consts=None, identity=(), const_true=(), const_false=(), effects=None, partial=False,
+                 reads=None, methods=None, skip=(), out_locals=None,
                  objlists=None, objvars=None, out_lists=None, file='GenFun.v'):
         self.path = path            # file relative to repo
         self.qual = qual            # 'func' or 'Class.method'
@@ -46,6 +47,17 @@ class Item:
         self.consts = consts or {}  # python name/attr text -> coq constant name (type 'table' or 'Z')
         self.identity = set(identity)      # calls that return their argument unchanged
         self.const_true = set(const_true)  # source text of tests known to be True for our typing
+        self.const_false = set(const_false)  # source text of tests known to be False for our typing
+        # calls executed for their effect on an external object: python callable text -> the pseudo attribute
+        # (a `self_<name>` parameter / result) that receives the call's FIRST argument
+        self.effects = effects or {}
+        # `x = self._fp.read(n)`: python callable text -> (coq function, data attribute, position attribute); translated as
+        # let '(x, self_<pos>) := f self_<data> self_<pos> n
+        self.reads = reads or {}
+        # `x = self.other()`: python callable text -> (coq function (partial), [self attributes passed], [self attributes returned])
+        self.methods = methods or {}
+        self.skip = set(skip)       # source text of statements without meaning for the model (buffer views)
+        self.out_locals = out_locals or {}   # local name -> (type, initial Coq value): returned after the result
         self.partial = partial      # raise -> None, return x -> Some x
         # lists of objects read/written attribute-wise: python text 'self.children' ->
         # (prefix, [attr...]); attribute a of element i is element i of the Coq list <prefix>_<a>
@@ -231,6 +243,8 @@ class FunTranslator:
     def bexpr(self, e, env):
         if self.src(e) in self.item.const_true:
             return 'true'
+        if self.src(e) in self.item.const_false:
+            return 'false'
         s, t = self.expr(e, env)
         if t == 'bool':
             return s
@@ -257,11 +271,15 @@ class FunTranslator:
     def assigned(self, stmts):
         out = []
         for st in stmts:
+            if self.src(st) in self.item.skip:
+                continue
             if isinstance(st, ast.Assign):
                 for t in st.targets:
                     out += self.target_names(t)
             elif isinstance(st, ast.AugAssign):
                 out += self.target_names(st.target)
+            elif self.effect_of(st) is not None:
+                out.append(self.effect_of(st)[0])
             elif isinstance(st, ast.If):
                 out += self.assigned(st.body) + self.assigned(st.orelse)
             elif isinstance(st, ast.For):
@@ -271,6 +289,13 @@ class FunTranslator:
             if x not in res:
                 res.append(x)
         return res
+
+    def effect_of(self, st):
+        """`self._fp.seek(pos, 0)` and the like: (pseudo attribute name, first argument) or None"""
+        if isinstance(st, ast.Expr) and isinstance(st.value, ast.Call) and self.src(st.value.func) in self.item.effects \
+                and st.value.args and not st.value.keywords:
+            return 'self_' + self.item.effects[self.src(st.value.func)], st.value.args[0]
+        return None
 
     def target_names(self, t):
         if isinstance(t, ast.Name):
@@ -331,11 +356,36 @@ class FunTranslator:
             return self.block(rest, env, tail)
         if self.is_guard(st):
             return self.block(rest, env, tail)
+        if self.src(st) in self.item.skip:
+            return self.block(rest, env, tail)
+        if isinstance(st, ast.Assign) and len(st.targets) == 1 and isinstance(st.targets[0], ast.Name) \
+                and isinstance(st.value, ast.Call) and not st.value.keywords:
+            fs = self.src(st.value.func)
+            x = st.targets[0].id
+            if fs in self.item.reads and len(st.value.args) == 1:
+                f, data, pos = self.item.reads[fs]
+                env2 = dict(env)
+                env2[x] = 'bytes'
+                return "let '(%s, self_%s) := %s self_%s self_%s %s in\n  %s" % (x, pos, f, data, pos, self.zexpr(st.value.args[0], env),
+                                                                              self.block(rest, env2, tail))
+            if fs in self.item.methods and not st.value.args:
+                if not self.item.partial:
+                    self.err(st, 'method call in a function not declared partial')
+                f, ins, outs = self.item.methods[fs]
+                env2 = dict(env)
+                env2[x] = 'bytes'
+                return 'match %s %s with\n  | Some (%s) => %s\n  | None => None end' % (
+                    f, ' '.join('self_' + a for a in ins), ', '.join([x] + ['self_' + a for a in outs]), self.block(rest, env2, tail))
+        if self.effect_of(st) is not None:
+            nm, arg = self.effect_of(st)
+            env2 = dict(env)
+            env2[nm] = 'Z'
+            return 'let %s := %s in\n  %s' % (nm, self.zexpr(arg, env), self.block(rest, env2, tail))
         if isinstance(st, ast.Return):
             if st.value is None:
                 self.err(st, 'bare return')
             s, t = self.expr(st.value, env)
-            outs = ['self_' + x for x in self.item.out_selfs] + list(self.item.out_lists)
+            outs = ['self_' + x for x in self.item.out_selfs] + list(self.item.out_lists) + list(self.item.out_locals)
             if outs:
                 s = '(%s, %s)' % (s, ', '.join(outs))
             return self.retwrap(s)
@@ -412,8 +462,17 @@ class FunTranslator:
                 return '(if %s then %s\n   else %s)' % (c, a, b)
             if st.orelse and self.terminates(st.orelse) and not self.has_return(st.body):
                 self.err(st, 'else-branch returns but then-branch does not')
-            if self.has_return(st.body) or self.has_return(st.orelse):
-                self.err(st, 'return/raise/break nested inside a non-terminating branch')
+            def calls_method(stmts):
+                return any(isinstance(n, ast.Call) and self.src(n.func) in self.item.methods for x in stmts for n in ast.walk(x))
+            one_sided = [v for v in self.assigned(st.body + st.orelse)
+                         if v not in env and not (v in self.assigned(st.body) and v in self.assigned(st.orelse))]
+            if self.has_return(st.body) or self.has_return(st.orelse) or calls_method(st.body + st.orelse) or one_sided:
+                if any(isinstance(n, (ast.Break, ast.Continue)) for x in st.body + st.orelse for n in ast.walk(x)):
+                    self.err(st, 'break/continue nested inside a non-terminating branch')
+                # some path returns or raises, another falls through: the continuation is translated in both branches
+                a = self.block(st.body + rest, env, tail)
+                b = self.block(st.orelse + rest, env, tail)
+                return '(if %s then %s\n   else %s)' % (c, a, b)
             vs = self.assigned(st.body + st.orelse)
             if not vs:
                 self.err(st, 'if statement without effect')
@@ -512,7 +571,11 @@ class FunTranslator:
             if not outs:
                 self.err(self.fn, 'function falls off the end')
             return self.retwrap(self.tuple_of(outs))
-        body = self.block(self.fn.body, env, fall_off)
+        pre = ''
+        for nm, (ty, init) in it.out_locals.items():
+            env[nm] = ty
+            pre += 'let %s := %s in\n  ' % (nm, init)
+        body = pre + self.block(self.fn.body, env, fall_off)
         tymap = {'Z': 'Z', 'bool': 'bool', 'bytes': 'list Z', 'table': 'list Z'}
         bs = ' '.join('(%s : %s)' % (n, tymap[t]) for n, t in binders)
         return 'Definition %s %s :=\n  %s.\n' % (it.coqname, bs, body)
@@ -633,6 +696,27 @@ ITEMS = [
 ] + [Item('pycdlib/rockridge.py', '%s.length' % c, 'rr_%s_length' % n, [], file='GenRR.v')
      for c, n in (('RRSPRecord', 'sp'), ('RRRRRecord', 'rr'), ('RRCERecord', 'ce'), ('RRESRecord', 'es'), ('RRPNRecord', 'pn'),
                   ('RRCLRecord', 'cl'), ('RRPLRecord', 'pl'), ('RRRERecord', 're'), ('RRSTRecord', 'st'))] + [
+    # PyCdlibIO.seek / tell: the stream position arithmetic; `self._fp.seek(pos, 0)` is the effect fp_pos := pos
+    Item('pycdlib/pycdlibio.py', 'PyCdlibIO.seek', 'pyio_seek', [('offset', Zt), ('whence', Zt)],
+         selfs={'_offset': Zt, '_length': Zt, '_startpos': Zt, 'fp_pos': Zt}, out_selfs=['_offset', 'fp_pos'],
+         const_true=['self._open'], const_false=['isinstance(offset, float)'], effects={'self._fp.seek': 'fp_pos'},
+         partial=True, file='GenIO.v'),
+    Item('pycdlib/pycdlibio.py', 'PyCdlibIO.readall', 'pyio_readall', [],
+         selfs={'_offset': Zt, '_length': Zt, '_startpos': Zt, 'fp_data': 'bytes', 'fp_pos': Zt}, out_selfs=['_offset', 'fp_pos'],
+         const_true=['self._open'], effects={'self._fp.seek': 'fp_pos'}, reads={'self._fp.read': ('py_fread', 'fp_data', 'fp_pos')},
+         partial=True, file='GenIO.v'),
+    Item('pycdlib/pycdlibio.py', 'PyCdlibIO.read', 'pyio_read', [('size', Zt)],
+         selfs={'_offset': Zt, '_length': Zt, '_startpos': Zt, 'fp_data': 'bytes', 'fp_pos': Zt}, out_selfs=['_offset', 'fp_pos'],
+         const_true=['self._open'], const_false=['size is None'], effects={'self._fp.seek': 'fp_pos'},
+         reads={'self._fp.read': ('py_fread', 'fp_data', 'fp_pos')},
+         methods={'self.readall': ('pyio_readall', ['_offset', '_length', '_startpos', 'fp_data', 'fp_pos'], ['_offset', 'fp_pos'])},
+         partial=True, file='GenIO.v'),
+    Item('pycdlib/pycdlibio.py', 'PyCdlibIO.readinto', 'pyio_readinto', [('b', 'bytes')],
+         selfs={'_offset': Zt, '_length': Zt, '_startpos': Zt, 'fp_data': 'bytes', 'fp_pos': Zt}, out_selfs=['_offset', 'fp_pos'],
+         const_true=['self._open'], effects={'self._fp.seek': 'fp_pos'}, reads={'self._fp.read': ('py_fread', 'fp_data', 'fp_pos')},
+         consts={'len(m)': ('(Z.of_nat (Datatypes.length b))', Zt)},
+         skip=['mv = memoryview(b)', "m = mv.cast('B')", 'm[:n] = data'], out_locals={'data': ('bytes', '(@nil Z)')},
+         partial=True, file='GenIO.v'),
     Item('pycdlib/rockridge.py', 'RRPXRecord.length', 'rr_px_length', [('rr_version', 'bytes')], partial=True, file='GenRR.v'),
     Item('pycdlib/rockridge.py', 'RRSFRecord.length', 'rr_sf_length', [('rr_version', 'bytes')], partial=True, file='GenRR.v'),
     Item('pycdlib/rockridge.py', 'RRERRecord.length', 'rr_er_length', [('ext_id', 'bytes'), ('ext_des', 'bytes'), ('ext_src', 'bytes')],
@@ -722,6 +806,10 @@ PRELUDE_RR = '''From PV.Base Require Import Prim PyBytes.
 From PV.Gen Require Import GenConst.
 '''
 
+PRELUDE_IO = '''From PV.Base Require Import Prim PyIO.
+From PV.Gen Require Import GenConst.
+'''
+
 PRELUDE_OBJ = '''From PV.Base Require Import Prim Upd.
 From PV.Gen Require Import GenFun.
 '''
@@ -802,6 +890,7 @@ def generate(repo):
     funs = [HEADER, PRELUDE_FUN]
     objs = [HEADER, PRELUDE_OBJ]
     rrs = [HEADER, PRELUDE_RR]
+    ios = [HEADER, PRELUDE_IO]
     for it in ITEMS:
         t = tree(it.path)
         if it.coqname == 'gmtoffset_from_tm':
@@ -812,9 +901,9 @@ def generate(repo):
                 raise TranslationError('%s: function %s not found' % (it.path, it.qual))
             txt = FunTranslator(it, fn, t, cls).translate()
         items[it.coqname] = txt
-        {'GenObj.v': objs, 'GenRR.v': rrs}.get(it.file, funs).append('(* %s :: %s *)\n%s' % (it.path, it.qual, txt))
+        {'GenObj.v': objs, 'GenRR.v': rrs, 'GenIO.v': ios}.get(it.file, funs).append('(* %s :: %s *)\n%s' % (it.path, it.qual, txt))
     return {'GenConst.v': '\n'.join(const), 'GenFun.v': '\n'.join(funs), 'GenObj.v': '\n'.join(objs),
-            'GenRR.v': '\n'.join(rrs)}, items
+            'GenRR.v': '\n'.join(rrs), 'GenIO.v': '\n'.join(ios)}, items
 
 
 def regenerate(repo, outdir):
